@@ -337,6 +337,10 @@ func (E *Engine) concCall(st *State, in ssa.Instruction, key string, cc *ssa.Cal
 		}
 		st.locks[id] = mode
 		st.ghost["lockobj:"+id] = lr.ref
+		if E.lockRefs == nil {
+			E.lockRefs = map[string]*lockRef{}
+		}
+		E.lockRefs[id] = lr
 		// havoc protected fields, assume the monitor invariant
 		for _, f := range lr.spec.Protects {
 			_, path, ok := findField(E, lr.T, f)
@@ -359,6 +363,7 @@ func (E *Engine) concCall(st *State, in ssa.Instruction, key string, cc *ssa.Cal
 		st.ghost["locksnap:"+id] = fmt.Sprint(len(E.snaps))
 		st.ghost["lastsnap"] = fmt.Sprint(len(E.snaps))
 		E.snaps = append(E.snaps, copyHeap(st.heap))
+		st.log = append(st.log, CallEvent{Label: "lock", Args: []*Val{{T: types.NewPointer(lr.T), S: lr.ref, Sort: SInt}}, Heap: E.snaps[len(E.snaps)-1], HeapAfter: E.snaps[len(E.snaps)-1]})
 		return nil, true
 	case "(*sync.Mutex).Unlock", "(*sync.RWMutex).Unlock", "(*sync.RWMutex).RUnlock":
 		lr := E.lockOf(args[0])
@@ -381,7 +386,13 @@ func (E *Engine) concCall(st *State, in ssa.Instruction, key string, cc *ssa.Cal
 		delete(st.locks, id)
 		st.ghost["lastunlock"] = fmt.Sprint(len(E.snaps))
 		E.snaps = append(E.snaps, copyHeap(st.heap))
+		st.log = append(st.log, CallEvent{Label: "unlock", Args: []*Val{{T: types.NewPointer(lr.T), S: lr.ref, Sort: SInt}}, Heap: E.snaps[len(E.snaps)-1], HeapAfter: E.snaps[len(E.snaps)-1]})
 		return nil, true
+	}
+	if strings.HasPrefix(key, "(*sync/atomic.") && (strings.HasSuffix(key, ").Store") || strings.HasSuffix(key, ").CompareAndSwap") || strings.HasSuffix(key, ").Swap") || strings.HasSuffix(key, ").Add")) {
+		// publication through an atomic: the stable predicates of the objects in scope must hold
+		// once the new value is visible. The ledger contract of the method is applied first.
+		E.pendingAtomic = true
 	}
 	if key == "(*sync.Once).Do" && len(args) == 2 {
 		return E.onceDo(st, in, args[1]), true
@@ -829,6 +840,13 @@ func (E *Engine) sharedStableCheckAll(st *State, in ssa.Instruction, site string
 		}
 		seen[v.S] = true
 		for i, cl := range E.stableClauses(ts) {
+			// only predicates that speak about the kind of event that just happened
+			if strings.HasPrefix(site, "atomic#") && !strings.Contains(cl.Text, "atomicwas(") {
+				continue
+			}
+			if strings.HasPrefix(site, "close#") && !strings.Contains(cl.Text, "closed(") {
+				continue
+			}
 			ev := E.selfEnvRef(st, v.S, p.Elem(), cl.Ctx)
 			ev.goal = true
 			E.oblige(st, "shared-stable", fmt.Sprintf("%s.%s.%d", site, n, i), or(eq(v.S, "0"), ev.evalBool(cl.Expr)), "close keeps: "+cl.Text, E.pos(in), cl)
@@ -869,4 +887,34 @@ func (E *Engine) trackWrite(st *State, in ssa.Instruction, lv *LVal, nv *Val) {
 		E.oblige(st, "tracker-nonneg", E.site(in)+"."+fname, sx(">=", upd, "0"), "this thread never gives back more of "+fname+" than it took ("+g+" >= 0)", E.pos(in), nil)
 	}
 	E.store(st, glv, &Val{T: cur.T, S: upd, Sort: SInt})
+}
+
+// heldProtected: the heap cells (component, object) protected by locks this thread holds in
+// write mode. A callee that havocs the heap cannot have changed them: it runs in this thread,
+// cannot acquire the (non-reentrant) lock again, and writing without the lock fails its own
+// lock-held obligation.
+func (E *Engine) heldProtected(st *State) [][2]string {
+	var out [][2]string
+	var ids []string
+	for id := range st.locks {
+		ids = append(ids, id)
+	}
+	sort.Strings(ids)
+	for _, id := range ids {
+		lr := E.lockRefs[id]
+		if lr == nil {
+			continue
+		}
+		for _, f := range lr.spec.Protects {
+			_, path, ok := findField(E, lr.T, f)
+			if !ok {
+				continue
+			}
+			lv := &LVal{Kind: lvHeap, Ref: st.ghost["lockobj:"+id], Root: lr.T, Path: path}
+			for _, comp := range E.modComps(&modItem{lv: lv}) {
+				out = append(out, [2]string{comp, lv.Ref})
+			}
+		}
+	}
+	return out
 }
